@@ -333,8 +333,13 @@ fn builder_door(case: &Value, native: bool) -> Value {
                 let expected_obj = ex(&case["obj"]);
                 let eval_obj = if case["sense"] == "sat" { 0.0 } else { sol.eval(&expected_obj) };
                 let evals: Vec<Value> = cons.iter().map(|c| json!({"lhs":num_obs(sol.eval(&c.lhs)),"rhs":num_obs(sol.eval(&c.rhs))})).collect();
+                // expressions that are not part of the model, evaluated at the solution (case field `probes`)
+                let probes: Vec<Value> = case["probes"]
+                    .as_array()
+                    .map(|ps| ps.iter().map(|t| num_obs(sol.eval(&ex(t)))).collect())
+                    .unwrap_or_default();
                 json!({"out":"solution","point":point_json(&handles),"typed":point_json(&typed),"byname":point_json(&byname),
-                       "value":num_obs(sol.value()),"eval_obj":num_obs(eval_obj),"evals":evals})
+                       "value":num_obs(sol.value()),"eval_obj":num_obs(eval_obj),"evals":evals,"probes":probes})
             }
         };
         with_lm(out, Some(&lm), mj)
@@ -344,7 +349,7 @@ fn builder_door(case: &Value, native: bool) -> Value {
 
 pub fn doors_event(case: &Value) -> Value {
     let mut ev = json!({"id": case["id"], "sense": case["sense"], "obj": case["obj"], "cons": case["cons"], "dom": case["dom"],
-                        "plan": case["plan"], "text": case["text"], "ktext": case["ktext"]});
+                        "plan": case["plan"], "text": case["text"], "ktext": case["ktext"], "probes": case.get("probes").cloned().unwrap_or(json!([]))});
     // ---- B / N: builder (all-Expr operands; native overloads + macros) ----------
     ev["B"] = builder_door(case, false);
     ev["N"] = builder_door(case, true);
